@@ -5,3 +5,4 @@ import Driver.Replay
 import Driver.Batching
 import Driver.OnPolicy
 import Driver.OffPolicy
+import Driver.Td
